@@ -265,10 +265,10 @@ def units(tier, seed):
         shards[i].append(s)
         loads[i] += w(s)
     us = [Unit(f"catalogue_{i:02d}", "c01:unit_specs", {"specs": sh}, loads[i]) for i, sh in enumerate(shards) if sh]
-    ng = 400 if T else 60
+    ng = 2500 if T else 60
     for sh in range(4):
         us.append(Unit(f"gen_generic_small_{sh}", "c01:unit_generated", {"kind": "generic", "n": ng, "shard": sh, "kmax": 3, "nmax": 9}, 5))
-        us.append(Unit(f"gen_generic_big_{sh}", "c01:unit_generated", {"kind": "generic", "n": ng, "shard": 10 + sh, "kmax": 6 if T else 5, "nmax": 12 if T else 10}, 8))
+        us.append(Unit(f"gen_generic_big_{sh}", "c01:unit_generated", {"kind": "generic", "n": ng, "shard": 10 + sh, "kmax": 8 if T else 5, "nmax": 14 if T else 10}, 8))
         us.append(Unit(f"gen_systematic_{sh}", "c01:unit_generated", {"kind": "systematic", "n": ng, "shard": 20 + sh}, 5))
         us.append(Unit(f"gen_ldpc_{sh}", "c01:unit_generated", {"kind": "ldpc", "n": ng, "shard": 30 + sh}, 5))
     return us
